@@ -92,7 +92,17 @@ Covered(k) == \E i \in 1..Len(out) : out[i].start <= k /\ k <= out[i].end
 RECURSIVE StretchBegin(_)
 StretchBegin(s) == LET prv == {k \in Max2(0, s - p.sil - 1)..(s - 1) : Valid(k)} IN
                    IF prv = {} THEN s ELSE StretchBegin(SetMin(prv))
-C04Cover == (done /\ p.imin <= 1 /\ ~p.strict) =>
+\* stretch by stretch (StretchEnd once per stretch: evaluating it for every frame is quadratic in the length of a stretch, and a stream
+\* with a generous silence tolerance can be ONE stretch of ten thousand frames): s is the first valid frame of a maximal stretch
+RECURSIVE CoverFrom(_)
+CoverFrom(i) == LET s == FirstValid(i) IN
+                IF s >= N THEN TRUE
+                ELSE LET e == StretchEnd(s) IN
+                     /\ (e - s + 1 >= p.min => \A k \in s..e : Valid(k) => Covered(k))
+                     /\ CoverFrom(e + 1)
+C04Cover == (done /\ p.imin <= 1 /\ ~p.strict) => CoverFrom(0)
+\* the same clause frame by frame, as the statement words it; used on the model-checking grids, where streams are short
+C04CoverDecl == (done /\ p.imin <= 1 /\ ~p.strict) =>
               \A k \in 0..(N-1) : (Valid(k) /\ StretchEnd(k) - StretchBegin(k) + 1 >= p.min) => Covered(k)
 C04First == (done /\ p.imin <= 1 /\ C01) =>
               \A i \in 1..Len(out) : ~IsCont(i) =>
